@@ -77,6 +77,7 @@ type vOutcome struct {
 	a, b     bool
 	o, e     []string
 	x, y     []string
+	user     [nOpts]bool // SetByUser of a, b, o, e
 }
 
 type vAppCfg struct {
@@ -101,10 +102,11 @@ func vRunTable(cfg vAppCfg, argv []string) (out vOutcome) {
 		}
 		return ""
 	}
-	a := app.Bool(BoolOpt{Name: "a aa", EnvVar: envOf("VA")})
-	b := app.Bool(BoolOpt{Name: "b bb", EnvVar: envOf("VB")})
-	o := app.Strings(StringsOpt{Name: "o oo", EnvVar: envOf("VO")})
-	e := app.Strings(StringsOpt{Name: "e ee", EnvVar: envOf("VE")})
+	var user [nOpts]bool
+	a := app.Bool(BoolOpt{Name: "a aa", EnvVar: envOf("VA"), SetByUser: &user[oA]})
+	b := app.Bool(BoolOpt{Name: "b bb", EnvVar: envOf("VB"), SetByUser: &user[oB]})
+	o := app.Strings(StringsOpt{Name: "o oo", EnvVar: envOf("VO"), SetByUser: &user[oO]})
+	e := app.Strings(StringsOpt{Name: "e ee", EnvVar: envOf("VE"), SetByUser: &user[oE]})
 	x := app.Strings(StringsArg{Name: "X"})
 	y := app.Strings(StringsArg{Name: "Y"})
 	if !cfg.noAction {
@@ -115,6 +117,7 @@ func vRunTable(cfg vAppCfg, argv []string) (out vOutcome) {
 			out.e = append([]string(nil), *e...)
 			out.x = append([]string(nil), *x...)
 			out.y = append([]string(nil), *y...)
+			out.user = user
 		}
 	}
 	func() {
@@ -178,7 +181,7 @@ func vObserveOutcome(tag string, p vOutcome) {
 
 // vRawArgv: K <= maxK tokens of <= maxL arbitrary bytes.
 func vRawArgv(maxK, maxL int) []string {
-	k := vNondetInt("K", 0, maxK)
+	k := vChoice("K", maxK+1)
 	var argv []string
 	for i := 0; i < k; i++ {
 		argv = append(argv, vNondetString("tok", maxL))
@@ -230,17 +233,17 @@ func vPayload(lp int) string {
 // vTemplateArgv builds up to maxItems items, each one of the documented shapes.
 // Returns the argv and, per token, the index of the item it came from.
 func vTemplateArgv(maxItems, lp int, shapes []int) []string {
-	n := vNondetInt("items", 0, maxItems)
+	n := vChoice("items", maxItems+1)
 	var argv []string
 	for i := 0; i < n; i++ {
-		si := vNondetInt("shape", 0, len(shapes)-1)
+		si := vChoice("shape", len(shapes))
 		argv = append(argv, vShapeTokens(shapes[si], lp)...)
 	}
 	return argv
 }
 
-func vFlagSel() int  { return vNondetInt("flag", oA, oB) }
-func vValSel() int   { return vNondetInt("val", oO, oE) }
+func vFlagSel() int  { return oA + vChoice("flag", 2) }
+func vValSel() int   { return oO + vChoice("val", 2) }
 func vShortOf(o int) string { return string([]byte{vOptTable[o].short}) }
 
 func vShapeTokens(sh int, lp int) []string {
